@@ -385,6 +385,28 @@ var c09instants = []c09instant{
 	{"1999-12-31T23:00:00-05:00", 1999, 12, 31, 23, 0, 0, 0, -18000, true},
 	{"2000-01-01 00:00:00.95", 2000, 1, 1, 0, 0, 0, 950000000, 0, false},
 	{"2000-01-01T00:00:00.5Z", 2000, 1, 1, 0, 0, 0, 500000000, 0, true},
+	// instants whose distance from 1970 does not fit 64-bit nanoseconds: still instants, still ordered (comparisons only)
+	{"2300-01-01T00:00:00Z", 2300, 1, 1, 0, 0, 0, 0, 0, true},
+	{"1600-01-01T00:00:00Z", 1600, 1, 1, 0, 0, 0, 0, 0, true},
+	{"2262-04-12T00:00:00Z", 2262, 4, 12, 0, 0, 0, 0, 0, true},
+}
+
+func (t c09instant) far() bool {
+	return t.y > 2262 || t.y < 1678 || (t.y == 2262 && t.mo >= 4 && t.d >= 12)
+}
+
+func (t c09instant) tm(zone *time.Location) time.Time {
+	if t.text == "" {
+		return c09now
+	}
+	loc := zone
+	if loc == nil {
+		loc = time.UTC
+	}
+	if t.fixed {
+		loc = time.FixedZone("", t.off)
+	}
+	return time.Date(t.y, time.Month(t.mo), t.d, t.h, t.mi, t.s, t.ns, loc)
 }
 
 var c09now = time.Date(2010, 6, 15, 10, 30, 0, 7, time.UTC)
@@ -420,6 +442,9 @@ func c09evalTime(c c09Case) []ev.Finding {
 	var e influxql.Expr
 	var want string
 	n1, n2 := t1.nanos(zone), t2.nanos(zone)
+	if tc.Form < 4 && (t1.far() || (tc.Form == 3 && t2.far())) {
+		return nil // sums and differences of such instants have no 64-bit nanosecond value
+	}
 	switch {
 	case tc.Form == 0:
 		e = &influxql.BinaryExpr{Op: influxql.ADD, LHS: t1.expr(), RHS: &influxql.DurationLiteral{Val: d}}
@@ -437,19 +462,20 @@ func c09evalTime(c c09Case) []ev.Finding {
 		op := c09cmp[tc.Form-4]
 		e = &influxql.BinaryExpr{Op: op, LHS: t1.expr(), RHS: t2.expr()}
 		var b bool
+		a1, a2 := t1.tm(zone), t2.tm(zone) // compared as instants, not as nanosecond counts (which wrap far from 1970)
 		switch op {
 		case influxql.EQ:
-			b = n1 == n2
+			b = a1.Equal(a2)
 		case influxql.NEQ:
-			b = n1 != n2
+			b = !a1.Equal(a2)
 		case influxql.LT:
-			b = n1 < n2
+			b = a1.Before(a2)
 		case influxql.LTE:
-			b = n1 <= n2
+			b = !a1.After(a2)
 		case influxql.GT:
-			b = n1 > n2
+			b = a1.After(a2)
 		case influxql.GTE:
-			b = n1 >= n2
+			b = !a1.Before(a2)
 		}
 		want = fmt.Sprintf("bool:%v", b)
 	}
